@@ -118,6 +118,8 @@ def exprs(depth=3):
         st.builds(lambda a, s1, op, s2, b: a + s1 + op + s2 + b, sub, sp, BINOPS, sp, sub),
         st.builds(lambda op, a: '%s(%s)' % (op, a) if op != 'await ' else '(%s)' % a, UNOPS, sub),
         st.builds(lambda a: '(' + a + ')', sub),
+        st.builds(lambda f, n, a: '%s(%s := %s)' % (f, n, a), NAMES, st.sampled_from(['x', 'y', 'n']), sub),
+        st.builds(lambda f, n, a: '%s(a, (%s := %s))' % (f, n, a), NAMES, st.sampled_from(['x', 'y', 'n']), sub),
         st.builds(lambda f, a, b: '%s(%s, k=%s)' % (f, a, b), NAMES, sub, sub),
         st.builds(lambda f, a: '%s(*%s, **%s)' % (f, a, a), NAMES, NAMES),
         st.builds(lambda a, b: '%s[%s]' % (a, b), NAMES, sub),
